@@ -33,7 +33,7 @@ def run_case(case):
     if case.get('spike'):
         ca_cfg['delay_spike'] = case['spike']
     eab_keys = {'kid-%s' % a: bytes((case['i'] * 5 + k * 11 + j) % 256 for j in range(32)).hex() for k, a in enumerate(accs)}
-    if case['variant'] == 'eab-restart':
+    if case['variant'] in ('eab-restart', 'eab-removed'):
         ca_cfg['eab_keys'] = eab_keys
     plan = {'default': ca_cfg}
     hp = {'hold_ms': case['hook_hold']}
@@ -41,14 +41,14 @@ def run_case(case):
         # the very first write of an account file fails (its file hook exits 3): the registration the CA has just accepted must not be forgotten
         hp['exit'] = {'h_accfail': [3]}
 
-    def mk_cfg(contacts, key_type):
+    def mk_cfg(contacts, key_type, with_eab=True):
         def cfg(d, ca):
             with open(d + '/hookplan.json', 'w') as f:
                 json.dump(hp, f)
             # every account has its own contact addresses: a newAccount request names the configured account it is for
             accl = [{'name': a, 'contacts': [x.replace('@', '+%s@' % a) for x in contacts], 'key_type': key_type} for a in accs]
             extra = []
-            if case['variant'] == 'eab-restart':
+            if case['variant'] in ('eab-restart', 'eab-removed') and with_eab:
                 import base64
                 for a in accl:
                     a['external_account'] = {'identifier': 'kid-%s' % a['name'], 'key': base64.urlsafe_b64encode(bytes.fromhex(eab_keys['kid-%s' % a['name']])).decode().rstrip('=')}
@@ -94,6 +94,21 @@ def run_case(case):
         # accounts bound to an external account: a plain restart with everything due again registers nothing
         phases.append({'cfg': mk_cfg(['a@example.org'], 'ecdsa_p256'), 'before': rm_certs, 'stop': all_done(1), 'timeout': 120, 'workers': case['workers'],
                        'plan': {'default': dict(ca_cfg, lifetimes_s=[LONG])}})
+    elif case['variant'] == 'eab-removed':
+        # the binding is taken out of the configuration once the accounts exist: nothing has to be registered again for that
+        phases.append({'cfg': mk_cfg(['a@example.org'], 'ecdsa_p256', with_eab=False), 'before': rm_certs, 'stop': all_done(1), 'timeout': 120, 'workers': case['workers'],
+                       'plan': {'default': dict(ca_cfg, lifetimes_s=[100, LONG])}})
+    elif case['variant'] == 'forget-refused':
+        # the CA has forgotten the accounts and refuses to create them again: every attempt ends (in failure), none spins
+        def some_failures(hooks, log):
+            po = {}
+            for h in hooks:
+                if C.hook_event(h) == 'post-operation':
+                    po[h.get('cert')] = po.get(h.get('cert'), 0) + 1
+            return all(po.get(c['name'], 0) >= 2 for c in certs) or len(log) > STORM
+        phases.append({'cfg': mk_cfg(['a@example.org'], 'ecdsa_p256'), 'before': forget_all, 'stop': some_failures, 'timeout': 60, 'workers': case['workers'],
+                       'plan': {'default': dict(ca_cfg, lifetimes_s=[LONG]),
+                                'faults': [{'kind': 'newAccount', 'action': 'acme_error', 'type': case.get('refusal', 'unauthorized'), 'status': 403, 'id': 'registration-refused'}]}})
     elif case['variant'] == 'contacts':
         phases.append({'cfg': mk_cfg(['b@example.org', 'c@example.org'], 'ecdsa_p256'), 'before': rm_certs, 'stop': all_done(1), 'timeout': 120, 'workers': case['workers'],
                        'plan': {'default': dict(ca_cfg, lifetimes_s=[LONG])}})
@@ -109,6 +124,15 @@ def run_case(case):
             hooks, log = S.phase_slice(run, pi)
             if ph['rc'] is not None:
                 pb.append(('daemon-died', 'phase %d: the daemon ended by itself (status %s): %s' % (pi, ph['rc'], ph['stderr'][-200:])))
+            if case['variant'] == 'forget-refused' and pi == 1:
+                if ph['timed_out'] or len(log) > STORM:
+                    po = {}
+                    for h in hooks:
+                        if C.hook_event(h) == 'post-operation':
+                            po[h.get('cert')] = po.get(h.get('cert'), 0) + 1
+                    stuck = [c['name'] for c in certs if po.get(c['name'], 0) < 2]
+                    pb.append(('not-terminated', 'phase 1 (accounts forgotten, registration refused): %d requests in %.0f s and the attempts of %s do not end' % (len(log), ph['wall'], stuck)))
+                continue
             if ph['timed_out'] or len(log) > STORM:
                 succ = {}
                 for h in S.successes(hooks):
@@ -234,7 +258,8 @@ def gen(tier, r):
         cases.append({'i': i, 'n': n, 'n_accs': n_accs, 'n_cas': n_cas, 'acc_of': acc_of, 'ca_of': ca_of,
                       'workers': [1, 2, 4, 16][i % 4], 'max_delay': r.choice([0, 10, 30, 50]), 'hook_hold': r.choice([0, 2, 10, 25]),
                       'variant': ['first', 'forget', 'contacts', 'key', 'forget-twice', 'key', 'forget-twice', 'contacts', 'save-fails', 'forget', 'eab-restart', 'key',
-                                  'forget-twice', 'save-fails', 'forget-twice', 'eab-restart'][i % 16], 'rounds': 2, 'nonce_on_get': bool(i % 3),
+                                  'forget-twice', 'save-fails', 'forget-refused', 'eab-removed'][i % 16],
+                      'refusal': r.choice(['unauthorized', 'externalAccountRequired', 'userActionRequired']), 'rounds': 2, 'nonce_on_get': bool(i % 3),
                       'forgets': r.randint(2, 4)})
         if cases[-1]['variant'] == 'forget-twice' and i % 16 == 4:
             # several certificates on one account and one endpoint
@@ -288,7 +313,7 @@ def run(tier):
     chk.notes['sharing_patterns'] = len(patterns)
     chk.rule = ('2-8 certificates over 1-3 accounts and 1-3 endpoints (random surjective sharing maps), two rounds of renewals all due at once, '
                 'per-response delays 0-50 ms, hook delays, TOKIO_WORKER_THREADS in {1,2,4,16}; variants: first registration only, CA forgets every '
-                'account, accounts forgotten again while orders arrive, contacts changed, key type changed, first account save failing, externally bound accounts across a restart; distinct = distinct per-CA sequences of (certificate, request kind) observed')
+                'account, accounts forgotten again while orders arrive, contacts changed, key type changed, first account save failing, externally bound accounts across a restart, bindings removed from the configuration, forgotten accounts whose re-creation is refused; distinct = distinct per-CA sequences of (certificate, request kind) observed')
     chk.assumptions = ['acmed polls all renewals on one thread: interleavings arise at await points and are moved by the injected delays',
                        'deadlock = renewals not ended within 120-150 s while a round normally takes a few seconds']
     code = chk.finish()
